@@ -1,84 +1,162 @@
 ---------------------------- MODULE Trace_Geod ----------------------------
 (* Validates observations of the geodesic solvers: lattice records (dir,     *)
-(* inv, pinv: exact integer answers on the unit-degree sphere) and law        *)
-(* records on the ellipsoid family (dl: direct, il: inverse, al: addition,    *)
+(* inv, pinv, sp: exact answers on the spheres of radius rk * 180/pi) and law *)
+(* records on the ellipsoid families (dl: direct, il: inverse, al: addition,  *)
 (* polygon closure, ellipsoid area).  Properties C01, C02, C03.               *)
-EXTENDS SphereLattice, Sequences, TraceKit
+(* The law name of a rejected record is "geod-<kind>-<first failing group>".  *)
+EXTENDS SphereLattice, GeodOverloads, Sequences, TraceKit
 
 CONSTANT Prop        \* "C01", "C02" or "C03": which clauses are judged (each record kind carries all residuals)
 VARIABLE l
+
+Max(a, b) == IF a >= b THEN a ELSE b
 
 (* ---------------- lattice: values are <<round(v * 1e6), residual in 1e-12>> pairs ---------------- *)
 LatTol == 20                       \* 2e-11 (unit-scale values are reproduced to <= 1e-13)
 Q(r, i) == <<r.q[2 * i - 1], r.q[2 * i]>>
 Is(p, x) == p[1] = 1000000 * x /\ Abs(p[2]) <= LatTol
 IsAzi(p, x) == Is(p, x) \/ (x = 180 /\ Is(p, -180)) \/ (x = -180 /\ Is(p, 180))
+\* against an irrational lattice value given as <<micro-units, remainder>>
+NormP(q, rr) == LET k == (rr + 500000) \div 1000000 IN <<q + k, rr - 1000000 * k>>
+MulP(w, k) == NormP(k * w[1], k * w[2])
+LinP(c0, c1) == NormP(1000000 * c0 + c1 * AQ, c1 * AR)
+IsP(p, w) == p[1] = w[1] /\ Abs(p[2] - w[2]) <= LatTol
+IsLinAzi(p, z) == \E k \in {-360, 0, 360} : IsP(p, LinP(z[1] + k, z[2]))      \* c0 + c1 A reduced to [-180, 180]
+
+\* interfaces of a direct lattice record: 0 GenDirect by arc, 1 by distance, 2 Line + GenPosition by arc, 3 by distance,
+\* 4 DirectLine, 5 ArcDirectLine, 6 GenDirectLine, 7 Line + SetDistance / SetArc (4..7: evaluated at the third point, and the
+\* line reports Distance() = rk a and Arc() = a).  On the sphere of radius rk * 180/pi: s12 (m) = rk a12 (deg).
 DirOK(r) ==
-  LET d == Direct(r.inc, r.s1, r.a)
-      arcmode == r.cfg % 3 # 1
-  IN /\ r.rng
-     /\ Is(Q(r, 1), d.lat2)
-     /\ \E e \in d.ends :
-          /\ Is(Q(r, 3), e[1])                                           \* unrolled lon2 - lon1: number and sense of circuits
-          /\ (IsAzi(Q(r, 4), e[2]) \/ (d.lat2 \in {90, -90} /\ FALSE))
-          /\ LET w == Norm180(r.lon1 + e[1]) IN IsAzi(Q(r, 2), w)          \* wrapped longitude in [-180, 180]
-     /\ Is(Q(r, 5), r.a) /\ Is(Q(r, 6), r.a)                               \* s12 (m) = a12 (deg) on this sphere
-     /\ (Prop = "C03" =>
-           /\ (d.m2 # 99 => Is(Q(r, 7), d.m2))
-           /\ (d.M2 # 99 => Is(Q(r, 8), d.M2) /\ Is(Q(r, 9), d.M2))
-           /\ (d.S12 # {} => \E x \in d.S12 : Is(Q(r, 10), x)))
+  LET d == Direct(r.inc, r.s1, r.a) IN
+  /\ r.rng /\ r.rk \in Radii /\ r.itf \in 0..7 /\ r.k \in 0..2
+  /\ Is(Q(r, 1), d.lat2)
+  /\ \E e \in d.ends :
+       /\ Is(Q(r, 3), e[1])                                           \* unrolled lon2 - lon1: number and sense of circuits
+       /\ (IsAzi(Q(r, 4), e[2]) \/ (d.lat2 \in {90, -90} /\ FALSE))
+       /\ LET w == Norm180(r.lon1 + e[1]) IN IsAzi(Q(r, 2), w)          \* wrapped longitude in [-180, 180]
+  /\ Is(Q(r, 5), r.rk * r.a) /\ Is(Q(r, 6), r.a)                        \* s12 = rk a12 metres, a12 degrees, whatever was given
+  /\ (IF r.itf >= 4 THEN Len(r.q) = 24 /\ Is(Q(r, 11), r.rk * r.a) /\ Is(Q(r, 12), r.a) ELSE Len(r.q) = 20)
+  /\ (Prop = "C03" =>
+        /\ (d.m2 # 99 => Is(Q(r, 7), r.rk * d.m2))
+        /\ (d.M2 # 99 => Is(Q(r, 8), d.M2) /\ Is(Q(r, 9), d.M2))
+        /\ (d.S12 # {} => \E x \in d.S12 : Is(Q(r, 10), r.rk * r.rk * x)))
 
 InvOK(r) ==
   LET i == Inverse(r.inc, r.s1, r.s2) IN
-  /\ r.rng /\ r.hit
-  /\ Is(Q(r, 1), i.a12) /\ Is(Q(r, 2), i.a12)
+  /\ r.rng /\ r.hit /\ r.rk \in Radii
+  /\ Is(Q(r, 1), i.a12) /\ Is(Q(r, 2), r.rk * i.a12)                  \* a12 / Arc() in degrees, s12 / Distance() in metres
   /\ (i.unique /\ r.full => IsAzi(Q(r, 3), i.azi1) /\ IsAzi(Q(r, 4), i.azi2))
   /\ (i.unique /\ ~r.full => IsAzi(Q(r, 3), i.azi1))
   /\ (Prop = "C03" /\ r.full =>
-        /\ (i.m2 # 99 => Is(Q(r, 5), i.m2))
+        /\ (i.m2 # 99 => Is(Q(r, 5), r.rk * i.m2))
         /\ (i.M2 # 99 => Is(Q(r, 6), i.M2) /\ Is(Q(r, 7), i.M2))
-        /\ (i.unique /\ i.S12 # {} => \E x \in i.S12 : Is(Q(r, 8), x)))
+        /\ (i.unique /\ i.S12 # {} => \E x \in i.S12 : Is(Q(r, 8), r.rk * r.rk * x)))
 
 PinvOK(r) ==
   LET p == PoleInverse(r.pole, r.L, r.lat, r.lon, r.first) IN
-  /\ r.rng /\ r.hit
-  /\ Is(Q(r, 1), p.a12) /\ Is(Q(r, 2), p.a12)
+  /\ r.rng /\ r.hit /\ r.rk \in Radii
+  /\ Is(Q(r, 1), p.a12) /\ Is(Q(r, 2), r.rk * p.a12)
   /\ IsAzi(Q(r, 3), p.azi1) /\ (r.full => IsAzi(Q(r, 4), p.azi2))
 
+\* lat2 = +-lat1 with a longitude difference of 90 degrees: the geodesic is unique, both azimuths are determined
+SpOK(r) ==
+  LET i == SameParallel(r.lat, r.mirror, r.dl) IN
+  /\ r.rng /\ r.hit /\ r.rk \in Radii
+  /\ Is(Q(r, 1), i.a12) /\ Is(Q(r, 2), r.rk * i.a12)
+  /\ IsLinAzi(Q(r, 3), i.azi1) /\ (r.full => IsLinAzi(Q(r, 4), i.azi2))
+  /\ (Prop = "C03" /\ r.full =>
+        /\ IsP(Q(r, 5), MulP(i.m2, r.rk)) /\ Is(Q(r, 6), i.M2) /\ Is(Q(r, 7), i.M2)
+        /\ IsP(Q(r, 8), LinP(r.rk * r.rk * i.S12[1], r.rk * r.rk * i.S12[2])))
+
 (* ---------------- laws: tolerances from the documentation ---------------- *)
-\* fi: 1: f = 0; 2, 3: +-1/298; 4, 5: +-1/150; 6, 7: +-0.01; 8, 9: +-0.02   (index = fi + 1)
-\* documented accuracy of the series solver (nm at WGS84 size; Geodesic.hpp accuracy table) and of the exact solver
-Series == <<15, 15, 15, 20, 20, 25, 25, 30, 30>>
+\* fi: 0: f = 0; 1, 2: +-1/298; 3, 4: +-1/150; 5, 6: +-0.01; 7, 8: +-0.02; 9, 10: +-0.05; 11, 12: +-0.1   (index = fi + 1)
+\*     13: b/a = bq[1] / bq[2], exact solver only
+\* Documented accuracy of the series solver (nm at WGS84 size; Geodesic.hpp: 15 nm on WGS84, table 25 nm at |f| = 0.01, 30 nm at
+\* 0.02; beyond that the "approximate maximum error" table 10 um at 0.05, 1.5 mm at 0.1 with the factor 4 of DESIGN section 4)
+Series == <<15, 15, 15, 20, 20, 25, 25, 30, 30, 40000, 40000, 6000000, 6000000>>
 Exact == 40
+\* GeodesicExact.hpp: "If the quarter meridian distance is 10000 km and the ratio b/a = 1 - f is varied then the approximate
+\* maximum error (expressed as a distance) is" 387 nm at 1/128 ... 15 at 1 ... 19024 at 128 (b/a = 2^-7 .. 2^7).  A ratio between
+\* two table entries takes the entry further from 1; the same factor 4 for "approximate maximum" tables; within 2 % of the
+\* sphere the 40 nm of the prose.  Lengths are scaled to a quarter meridian of 10 000 km by the driver.
+ExTab == <<387, 345, 269, 210, 115, 69, 36, 15, 25, 96, 318, 985, 2352, 6008, 19024>>
+RECURSIVE Lg(_, _, _)
+Lg(p, q, k) == IF p * (2 ^ k) >= q \/ k >= 7 THEN k ELSE Lg(p, q, k + 1)        \* smallest k with p 2^k >= q
+ExactDoc(p, q) == IF p <= q THEN ExTab[8 - Lg(p, q, 0)] ELSE ExTab[8 + Lg(q, p, 0)]
+ExNm(r) == IF r.fi # 13 THEN Exact
+           ELSE IF 50 * r.bq[1] >= 49 * r.bq[2] /\ 50 * r.bq[2] >= 49 * r.bq[1] THEN Exact
+           ELSE 4 * ExactDoc(r.bq[1], r.bq[2])
+SerNm(r) == Series[r.fi + 1]
+HasSeries(r) == r.fi <= 12                    \* the series solver has a documented accuracy on this ellipsoid
+Circ(r) == 1 + r.circ                         \* errors accumulate with the number of circuits
 TolSE(fi) == Series[fi + 1] + Exact           \* two independent solvers: each is allowed its own error
 TolSS(fi) == 2 * Series[fi + 1]               \* two evaluations by the series solver
 TolEE == 2 * Exact
-Circ(r) == 1 + r.circ                         \* errors accumulate with the number of circuits
+SE(r) == SerNm(r) + ExNm(r)
+SS(r) == 2 * SerNm(r)
+EE(r) == 2 * ExNm(r)
 \* azimuths as 3-D unit tangents (1e-15): max(1e-13, position tolerance / a)
-TanTol(nm) == 100 + (nm * 1000) \div 6
-\* Area under a geodesic (units 1e-4 m^2).  Base: 0.1 m^2, the documented area accuracy per edge (PolygonArea.hpp).
+TanTol(nm) == IF nm > 2000000 THEN 2000000000 ELSE 100 + (nm * 1000) \div 6
+\* on a prolate ellipsoid of the exact-only family the smallest radius of curvature is a^2 / b: the same with a (a / b) for a
+TanTolR(nm, r) ==
+  LET k == IF r.fi = 13 /\ r.bq[1] > r.bq[2] THEN (r.bq[1] + r.bq[2] - 1) \div r.bq[2] ELSE 1
+  IN IF nm > 2000000 \div k THEN 2000000000 ELSE TanTol(nm * k)
+\* Area under a geodesic (units 1e-4 m^2).  Base: 0.1 m^2, the documented area accuracy per edge (PolygonArea.hpp; GeodesicExact:
+\* "full double precision accuracy" of the area for b/a in [0.01, 100], i.e. 2e-16 of the ellipsoid's area, scaled by the driver).
 \* S12 depends on the end points through longitude/azimuth differences times c2 ~ a^2; a position error of p nm at
 \* latitude phi moves the longitude by p/(a cos phi), i.e. S12 by about 6.3e-3 p / cos(phi) m^2: the area obligation is
 \* stated at the position accuracy, so this conditioning term is added (cmin = cos of the highest end latitude, 1e-6).
 \* Within 0.06 degree of a pole (cmin < 1e-3) the longitude itself is ill-defined at this accuracy: no area obligation.
 AreaTolAt0(nm, cmin) == 1000 + (63 * nm * 1000) \div (cmin \div 1000)
 AreaTol == 1000
+\* the same with the conditioning evaluated on the ellipsoid at hand: dS12 = q(phi) dlambda, dlambda = p / (N cos(phi)); the
+\* driver logs kq = q / (N cos(phi)) in the units of the record (64 tan(phi) on WGS84); no obligation when kq > 20000
+AreaTolK(nm, kq) == 1000 + kq * nm
+AreaOKK(v, nm, kq) == kq > 20000 \/ nm > 100000 \/ v <= AreaTolK(nm, kq)
 \* the accuracy of the series expansions is documented for |f| <= 0.01 (table in Geodesic.hpp is a distance table; for
-\* |f| = 0.02 the 6th-order area series has no documented bound): area obligations are stated for fi <= 6
+\* |f| = 0.02 the 6th-order area series has no documented bound): area obligations OF THE SERIES SOLVER are stated for fi <= 6
 AreaOK(v, nm, r) == r.cmin < 1000 \/ r.fi > 6 \/ v <= AreaTolAt0(nm, r.cmin)
 \* inverse problem: the azimuths at the end points are determined to (position error) / m12, and S12 ~ c2 (azi2 - azi1):
-\* an additional 4e13 m^2 x nm x 1e-9 / m12 (no obligation when |m12| < 1 km, i.e. next to a conjugate point)
+\* an additional 4e13 m^2 x nm x 1e-9 / m12 (no obligation when |m12| < 1 km on a LONG line, i.e. next to a conjugate point).
+\* On a line shorter than 1 km S12 is q(phi) (lon2 - lon1) to first order and is as well conditioned as the longitudes.
 AreaOKInv(v, nm, r) ==
-  r.cmin < 1000 \/ r.fi > 6 \/ r.m12m < 1000 \/ v <= AreaTolAt0(nm, r.cmin) + (400000 * nm) \div (r.m12m \div 1000)
+  \/ r.cmin < 1000 \/ r.fi > 6
+  \/ IF r.s12m < 1000 THEN v <= AreaTolAt0(nm, r.cmin)
+     ELSE r.m12m < 1000 \/ v <= AreaTolAt0(nm, r.cmin) + (400000 * nm) \div (r.m12m \div 1000)
 ScaleTol == 1000                              \* 1e-12: geodesic scales M12, M21
 OvlTol == 100                                 \* 1e-13 (relative): the same quantity through another overload / output mask
+UlpTol == 1                                   \* the same call through another entry point: bit for bit (1 ulp allowed)
+\* a length whose sensitivity to the end point is mx = max(1, |M12|, |M21|) (d m12 / d s2 = M21): t mx, without overflow
+LenTol(t, mx) == IF mx > 1000 \/ t > 1000000 THEN 2000000000 ELSE t * mx
 
-DlOK(r) ==
-  LET c == Circ(r)  se == TolSE(r.fi) * c  ss == TolSS(r.fi) * c IN
-  /\ r.rng
-  \* L1: series = exact = exact(delegating) = line
-  /\ r.pos[1] <= se /\ r.pos[2] <= TolEE * c /\ r.pos[3] <= ss
-  /\ r.tan[1] <= TanTol(se) /\ r.tan[2] <= TanTol(TolEE * c) /\ r.tan[3] <= TanTol(ss)
+(* ---------------- overload agreement (GeodOverloads) ---------------- *)
+RowTab == [f \in Families |-> [n \in 1..8 |-> {w \in Rows : w[1] = f /\ w[2] = n}]]
+\* entries [cls, fam, arity, sig, dpM, dmM, dpA, dmA]; fams: the families this record exercises
+OvOK(ov, fams) ==
+  /\ {<<x[1], x[2], x[3]>> : x \in {ov[k] : k \in 1..Len(ov)}} = {<<c, w[1], w[2]>> : c \in Classes, w \in {y \in Rows : y[1] \in fams}}
+  /\ Len(ov) = Cardinality(Classes) * Cardinality({y \in Rows : y[1] \in fams})
+  /\ \A k \in 1..Len(ov) :
+       LET x == ov[k]  ws == RowTab[x[2]][x[3]] IN
+       /\ \E w \in ws : x[4] = Sig(w[1], w[3])          \* the C++ signature has exactly the documented outputs
+       /\ x[5] <= UlpTol /\ x[7] <= OvlTol              \* lat2, lon2, azi2, s12 (azi1, azi2, s12) and the returned a12
+       /\ (Prop = "C03" => x[6] <= UlpTol /\ x[8] <= OvlTol)      \* m12, M12, M21, S12
+\* constructor forms [cls, form, d given (ulp), d other (1e-15), position at the third point (ulp), via the other measure (nm)]
+CtOK(ct, arc, r) ==
+  /\ {<<x[1], x[2]>> : x \in {ct[k] : k \in 1..Len(ct)}} = {<<c, w[1]>> : c \in Classes, w \in FormsOf(arc)}
+  /\ \A k \in 1..Len(ct) :
+       LET x == ct[k] IN
+       /\ x[3] <= UlpTol /\ x[4] <= OvlTol /\ x[5] <= UlpTol
+       /\ (IF x[1] = 0 THEN (HasSeries(r) => x[6] <= SS(r) * Circ(r)) ELSE x[6] <= EE(r) * Circ(r))
+OvPresent(r) == r.id % 4 = 0 => Has(r, "ov")
+
+(* ---------------- direct problem ---------------- *)
+DlRange(r) == r.rng
+\* L1: series = exact = series line; chain, arc <-> distance, Clairaut for the series solver
+DlSeries(r) ==
+  LET c == Circ(r)  se == SE(r) * c  ss == SS(r) * c IN
+  HasSeries(r) =>
+  /\ r.pos[1] <= se /\ r.pos[3] <= ss
+  /\ r.tan[1] <= TanTol(se) /\ r.tan[3] <= TanTol(ss)
   /\ r.sa[1] <= se /\ r.sa[3] <= ss
   /\ r.sa[2] <= 10 * se /\ r.sa[4] <= 10 * ss           \* arc length: 1e-13 deg ~ 0.011 nm
   \* unrolled longitude: congruent to the wrapped one; every configuration counts the same circuits
@@ -88,73 +166,172 @@ DlOK(r) ==
   \* L4 arc <-> distance
   /\ r.ad[1] <= ss /\ r.ad[2] <= 10 * ss
   \* L6 Clairaut's relation holds for the returned azimuths
-  /\ r.clr[1] <= TanTol(ss) /\ r.clr[2] <= TanTol(TolEE * c)
-  /\ (Prop = "C03" =>
-        /\ r.mm[1] <= se /\ r.mm[2] <= ScaleTol * c /\ r.mm[3] <= ScaleTol * c
+  /\ r.clr[1] <= TanTol(ss)
+  /\ r.lin[1][1] <= ss /\ r.lin[1][2] <= TanTol(ss) /\ r.lin[1][3] <= ss /\ r.lin[1][4] <= 10 * ss /\ r.lin[1][5] <= 100000
+\* the exact solver by itself, on every ellipsoid of its documented range: exact=true and both line objects agree with it,
+\* arc <-> distance, chain, Clairaut, congruent unrolled longitude
+DlExact(r) ==
+  LET c == Circ(r)  ee == EE(r) * c IN
+  /\ r.pos[2] <= ee /\ r.tan[2] <= TanTolR(ee, r)
+  /\ \A k \in 1..Len(r.x2) : r.x2[k] <= UlpTol                      \* exact=true IS the exact solver: every output
+  /\ \A k \in 2..3 : r.lin[k][1] <= ee /\ r.lin[k][2] <= TanTolR(ee, r) /\ r.lin[k][3] <= ee /\ r.lin[k][4] <= 10 * ee /\ r.lin[k][5] <= 100000
+  /\ r.ex[3] <= ee /\ (r.fi # 13 /\ r.ex[1] = 1 => r.ex[2] <= 10 * ee)      \* chain
+  /\ r.ex[4] <= ee /\ r.ex[5] <= 10 * ee                                \* arc <-> distance
+  /\ r.ex[6] <= ee                                                      \* there and back
+  /\ r.clr[2] <= TanTolR(ee, r)
+  /\ r.unr[5] <= 1000
+  \* anchors on the walk: quarter meridian to the pole, half meridian to the opposite equator, and the inverse problem
+  \* equator -> pole (the quarter meridian is evaluated by the driver with the AGM)
+  /\ (Has(r, "anc") => r.anc[1] <= EE(r) /\ r.anc[2] <= EE(r) /\ r.anc[4] <= EE(r))
+\* the definition of S12 by quadrature: [S12 exact - I, I(2P) - I(P), S12 series - I, S12 exact=true line - I, cos(beta) min on
+\* the path, kq, |sin(alpha0)|]: stated when the path keeps clear of the poles (a meridional passage changes the longitude by 180)
+PoleFree(ad) == ad[5] >= 1000 /\ (ad[7] >= 1000 \/ ad[5] >= 50000)
+DlAreaDef(r) ==
+  Has(r, "adef") /\ PoleFree(r.adef) /\ r.adef[2] <= 100000 /\ r.adef[6] <= 20000 =>
+    LET ee == EE(r) * Circ(r)  se == SE(r) * Circ(r) IN
+    /\ (ee <= 100000 => r.adef[1] <= AreaTolK(ee, r.adef[6]) + 10 * r.adef[2] /\ r.adef[4] <= AreaTolK(ee, r.adef[6]) + 10 * r.adef[2])
+    /\ (r.fi <= 6 => r.adef[3] <= AreaTolK(se, r.adef[6]) + 10 * r.adef[2])
+DlC03(r) ==
+  LET c == Circ(r)  se == SE(r) * c  ss == SS(r) * c  ee == EE(r) * c IN
+  /\ (HasSeries(r) => r.mm[1] <= se /\ r.mm[5] <= ss /\ r.back[1] <= ss /\ r.back[2] <= ss /\ r.lin[1][6] <= ss)
+  /\ (r.fi <= 8 =>
+        /\ r.mm[2] <= ScaleTol * c /\ r.mm[3] <= ScaleTol * c
         \* series vs exact area: stated where the series accuracy is documented (|f| <= 0.01)
         /\ AreaOK(r.mm[4], se, r)
-        /\ r.mm[5] <= ss /\ r.mm[6] <= ScaleTol * c /\ r.mm[7] <= ScaleTol * c /\ AreaOK(r.mm[8], ss, r)
+        /\ r.mm[6] <= ScaleTol * c /\ r.mm[7] <= ScaleTol * c /\ AreaOK(r.mm[8], ss, r)
         \* reversal: m12 negated by travelling backwards, M12 and M21 exchanged, S12 negated
-        /\ r.back[1] <= ss /\ r.back[2] <= ss /\ r.back[3] <= ScaleTol * c /\ r.back[4] <= ScaleTol * c /\ AreaOK(r.back[5], ss, r)
-        \* every overload that returns only some of m12, M12, M21, S12 returns what the full call returns (round-off: the same
-        \* formulas are evaluated whatever else is requested)
-        /\ \A k \in 1..Len(r.ovl) : r.ovl[k] <= OvlTol)
+        /\ r.back[3] <= ScaleTol * c /\ r.back[4] <= ScaleTol * c /\ AreaOK(r.back[5], ss, r)
+        /\ r.ex[8] <= ScaleTol * c /\ r.ex[9] <= ScaleTol * c
+        /\ \A k \in 1..3 : r.lin[k][7] <= ScaleTol * c /\ r.lin[k][8] <= ScaleTol * c)
+  \* the exact solver: reversal of m12 (conditioning d m12 / d s2 = M21) and of S12, line = solver, on every ellipsoid
+  /\ r.ex[7] <= LenTol(ee, r.mx)
+  /\ (r.cmin >= 1000 => AreaOKK(r.ex[10], ee, r.kq))
+  /\ \A k \in 2..3 : r.lin[k][6] <= LenTol(ee, r.mx) /\ (r.cmin >= 1000 => AreaOKK(r.lin[k][9], ee, r.kq))
+  /\ (r.fi <= 6 /\ r.cmin >= 1000 => AreaOKK(r.lin[1][9], ss, r.kq))
+  /\ DlAreaDef(r)
+  \* a call that requests only some of m12, M12, M21, S12 through the output mask returns what the full call returns
+  /\ \A k \in 1..Len(r.ovl) : r.ovl[k] <= OvlTol
+  /\ (Has(r, "area") => \A k \in 1..Len(r.area) : r.area[k] <= 100)      \* closed-form ellipsoid area on the walk
+\* anchor on the walk: along the equator lon2 - lon1 = s12 / a
+DlAnchorEq(r) == Has(r, "anc") => r.anc[3] <= EE(r)
+DlOverload(r) ==
+  /\ OvPresent(r)
+  /\ (Has(r, "ov") => OvOK(r.ov, IF r.arc THEN {2, 5} ELSE {1, 4}) /\ Has(r, "ct") /\ CtOK(r.ct, r.arc, r))
+DlLaw(r) ==
+  IF ~DlRange(r) THEN "range" ELSE IF ~DlSeries(r) THEN "series" ELSE IF ~DlExact(r) THEN "exact"
+  ELSE IF ~DlOverload(r) THEN "overload" ELSE IF Prop = "C03" /\ ~DlC03(r) THEN "c03"
+  ELSE IF ~DlAnchorEq(r) THEN "anchor-eq" ELSE "ok"
 
+(* ---------------- inverse problem ---------------- *)
 \* the inverse problem is well conditioned for azimuths: not (nearly) coincident, antipodal or polar-antipodal
 \* (catalogue in Geodesic.hpp: lat1 = -lat2 with azi1 # azi2, and lon2 = lon1 +- 180 with azi1 not 0/180, have two solutions)
-\* cls 3: separations down to 1e-15 degree; 4: nearly antipodal; 6, 7: antipodal / both poles; 8: coincident
+\* cls 3: separations down to 1e-15 degree; 4: nearly antipodal; 6, 7: antipodal / both poles; 8: coincident;
+\* 15, 16: (nearly) equatorial pairs around the break-away longitude 180 (1 - f), nearly antipodal for small f
 Conditioned(r) ==
-  /\ r.cls \notin {3, 4, 6, 7, 8} /\ r.deg[3] >= 1000000           \* at least 1 mm apart
+  /\ r.cls \notin {3, 4, 6, 7, 8, 15, 16} /\ r.deg[3] >= 1000000           \* at least 1 mm apart
   /\ (r.deg[1] = 0 => r.eqaz) /\ (r.deg[2] = 0 => r.meraz)
+\* closure does not need a unique answer: whichever shortest geodesic is returned, following it arrives with the returned azimuth
+CondClosure(r) == r.cls \notin {3, 8} /\ r.deg[3] >= 1000000
 \* azimuth of a line of length s12 between points known to p nm: p / s12 radians (1e-15 units), added for short lines
 ShortTerm(nm, s12nm) ==
   IF s12nm >= 2000000000 THEN 0
-  ELSE LET q == ((nm + 8) * 1000000) \div (s12nm \div 1000000) IN IF q > 2000000 THEN 2000000000 ELSE q * 1000
-TanTolS(nm, r) == TanTol(nm) + ShortTerm(nm, r.deg[3])
-IlOK(r) ==
-  LET se == TolSE(r.fi)  ss == TolSS(r.fi) IN
-  /\ r.arc
-  \* I1: following the returned azimuth for the returned distance arrives at point 2 with the returned azimuth
-  /\ r.clo[1] <= ss /\ r.clo[2] <= TolEE /\ r.clo[3] <= TolEE
-  /\ (Conditioned(r) => r.clt[1] <= TanTolS(ss, r) /\ r.clt[2] <= TanTolS(TolEE, r) /\ r.clt[3] <= TanTolS(TolEE, r))
-  \* shortest: triangle inequality through a third point; symmetric in its end points
-  /\ r.tri[1] <= 3 * Exact /\ r.tri[2] <= TolEE
-  \* I4: the solvers agree
-  /\ r.agr[1] <= se /\ r.agr[2] <= TolEE /\ r.agr[3] <= 10 * se
-  /\ (Conditioned(r) => r.agr[4] <= TanTolS(se, r) /\ r.agr[5] <= TanTolS(se, r))
-  \* I3: every element of the symmetry group (descriptors from GeodSym) changes the outputs as documented
-  /\ \A k \in 1..Len(r.sym) :
-       LET d == r.sym[k] IN
-       /\ d[1] <= TolEE /\ d[2] <= 10 * TolEE
-       /\ (Conditioned(r) => d[3] <= TanTolS(TolEE, r) /\ d[4] <= TanTolS(TolEE, r))
-       /\ (Prop = "C03" /\ Conditioned(r) => d[5] <= TolEE /\ d[6] <= ScaleTol /\ d[7] <= ScaleTol /\ AreaOKInv(d[8], TolEE, r))
-  /\ (Prop = "C03" /\ Conditioned(r) =>
-        /\ r.agr[6] <= se /\ r.agr[7] <= ScaleTol /\ r.agr[8] <= ScaleTol /\ AreaOKInv(r.agr[9], se, r)
-        /\ r.itf[1] <= ss /\ r.itf[2] <= ScaleTol /\ r.itf[3] <= ScaleTol /\ AreaOKInv(r.itf[4], ss, r))
-  /\ (Prop = "C03" => \A k \in 1..Len(r.ovl) : r.ovl[k] <= OvlTol)
+  ELSE IF nm > 2000000 THEN 2000000000
+  ELSE LET mm == s12nm \div 1000000
+           q2 == ((nm + 8) * 1000) \div mm
+           q == IF nm <= 2000 THEN ((nm + 8) * 1000000) \div mm ELSE IF q2 > 1000 THEN 2000000 ELSE q2 * 1000
+       IN IF q > 1000000 THEN 2000000000 ELSE q * 1000
+\* (deg[3] saturates at 2 m; on the exact-only family, where p is hundreds of nm, the same term continues with the length in metres)
+ShortTermM(nm, m) ==
+  IF m < 1 \/ nm > 2000000 THEN 2000000000
+  ELSE LET q2 == ((nm + 8) * 1000) \div m IN
+       IF nm <= 2000 THEN ((nm + 8) * 1000000) \div m ELSE IF q2 > 1000000 THEN 2000000000 ELSE q2 * 1000
+TanTolS(nm, r) ==
+  LET a == TanTolR(nm, r)
+      b == IF r.deg[3] < 2000000000 \/ r.fi # 13 THEN ShortTerm(nm, r.deg[3]) ELSE ShortTermM(nm, r.s12m)
+  IN IF a >= 1000000000 \/ b >= 1000000000 THEN 2000000000 ELSE a + b
+IlRange(r) == IF HasSeries(r) THEN r.arc ELSE r.arcx
+\* I1: following the returned azimuth for the returned distance (clo) or arc length (cla) arrives at point 2 with the returned azimuth
+IlClosure(r) ==
+  LET ss == SS(r)  ee == EE(r) IN
+  /\ (HasSeries(r) => r.clo[1] <= ss /\ r.cla[1] <= ss)
+  /\ r.clo[2] <= ee /\ r.clo[3] <= ee /\ r.cla[2] <= ee /\ r.cla[3] <= ee
+  /\ (CondClosure(r) => (HasSeries(r) => r.clt[1] <= TanTolS(ss, r)) /\ r.clt[2] <= TanTolS(ee, r) /\ r.clt[3] <= TanTolS(ee, r))
+\* shortest: triangle inequality through a third point; symmetric in its end points
+\* (third points: a random one, and the poles and the equatorial points of the mid-meridian: the competing routes of the
+\* meridional, equatorial and nearly antipodal cases)
+IlShortest(r) == r.tri[1] <= 3 * ExNm(r) /\ r.tri[2] <= EE(r) /\ \A k \in 1..Len(r.tri2) : r.tri2[k] <= 3 * ExNm(r)
+\* I4: the solvers agree; exact=true IS the exact solver
+IlAgree(r) ==
+  LET se == SE(r) IN
+  /\ (HasSeries(r) => r.agr[1] <= se /\ r.agr[3] <= 10 * se
+                      /\ (Conditioned(r) => r.agr[4] <= TanTolS(se, r) /\ r.agr[5] <= TanTolS(se, r)))
+  /\ r.agr[2] <= EE(r)
+  /\ \A k \in 1..Len(r.x2) : r.x2[k] <= UlpTol
+\* I3: every element of the symmetry group (descriptors from GeodSym) changes the outputs as documented
+IlSym(r) ==
+  LET ee == EE(r) IN
+  \A k \in 1..Len(r.sym) :
+     LET d == r.sym[k] IN
+     /\ d[1] <= ee /\ d[2] <= 10 * ee
+     /\ (Conditioned(r) => d[3] <= TanTolS(ee, r) /\ d[4] <= TanTolS(ee, r))
+     /\ (Prop = "C03" /\ r.fi <= 8 /\ Conditioned(r) => d[5] <= ee /\ d[6] <= ScaleTol /\ d[7] <= ScaleTol)
+     /\ (Prop = "C03" /\ r.fi <= 8 /\ (Conditioned(r) \/ r.s12m < 1000) => AreaOKInv(d[8], ee, r))
+\* InverseLine: the line starts with azi1, its third point is point 2: Distance() = s12, Arc() = a12
+IlLine(r) ==
+  \A k \in 1..3 :
+     LET d == r.ln[k]  t == IF k = 1 THEN SS(r) ELSE EE(r) IN
+     (k = 1 => HasSeries(r)) =>
+       /\ d[1] <= t /\ d[2] <= 10 * t /\ d[4] <= t /\ d[5] <= t
+       /\ (CondClosure(r) => d[3] <= TanTolS(t, r))
+IlC03(r) ==
+  LET se == SE(r)  ss == SS(r)  ee == EE(r) IN
+  /\ (r.fi <= 8 /\ Conditioned(r) =>
+        /\ r.agr[6] <= se /\ r.agr[7] <= ScaleTol /\ r.agr[8] <= ScaleTol
+        /\ r.itf[1] <= ss /\ r.itf[2] <= ScaleTol /\ r.itf[3] <= ScaleTol
+        /\ r.itf1[2] <= ScaleTol /\ r.itf1[3] <= ScaleTol)
+  /\ (r.fi <= 8 /\ (Conditioned(r) \/ r.s12m < 1000) =>
+        /\ AreaOKInv(r.agr[9], se, r) /\ AreaOKInv(r.itf[4], ss, r))
+  /\ (Conditioned(r) => r.itf1[1] <= LenTol(ee, r.mx))
+  /\ \A k \in 1..Len(r.ovl) : r.ovl[k] <= OvlTol
+IlOverload(r) == OvPresent(r) /\ (Has(r, "ov") => OvOK(r.ov, {3}))
+IlLaw(r) ==
+  IF ~IlRange(r) THEN "range" ELSE IF ~IlClosure(r) THEN "closure" ELSE IF ~IlShortest(r) THEN "shortest"
+  ELSE IF ~IlAgree(r) THEN "agree" ELSE IF ~IlSym(r) THEN "sym" ELSE IF ~IlLine(r) THEN "line"
+  ELSE IF ~IlOverload(r) THEN "overload" ELSE IF Prop = "C03" /\ ~IlC03(r) THEN "c03" ELSE "ok"
 
+(* ---------------- addition rules, polygon closure, ellipsoid area ---------------- *)
 AlOK(r) ==
-  LET t == IF r.kind = 0 THEN TolSS(r.fi) ELSE TolEE IN
+  \* (on the eccentric ellipsoids of the exact-only family a segment of three quarter meridians can wind several times)
+  LET t == (IF r.kind = 0 THEN SS(r) ELSE EE(r)) * (IF r.fi = 13 THEN Circ(r) ELSE 1) IN
+  /\ (r.kind = 0 => HasSeries(r))
   /\ r.add[1] <= t /\ r.add[2] <= 10 * t
-  /\ r.add[3] <= t /\ r.add[4] <= 10 * t /\ r.add[5] <= 10 * t        \* (the M rules are stated multiplied by m12, m23: metres)
-  /\ AreaOK(r.add[6], t, r)
-  /\ (r.fi > 6 \/ r.poly[1] <= 3 * AreaTol + 3 * AreaTolAt0(t, 200000))
-  /\ \A k \in 1..4 : r.area[k] <= 100          \* 1e-14 relative: all classes equal the closed-form ellipsoid area
+  /\ r.add[3] <= LenTol(t, r.mx) /\ r.add[4] <= LenTol(10 * t, r.mx) /\ r.add[5] <= LenTol(10 * t, r.mx)       \* (the M rules are stated multiplied by m12, m23: metres)
+  /\ (IF r.kind = 0 THEN AreaOK(r.add[6], t, r) ELSE r.cmin < 1000 \/ AreaOKK(r.add[6], t, r.kq))
+  /\ (IF r.kind = 0 THEN r.fi > 6 \/ r.poly[1] <= 3 * AreaTol + 3 * AreaTolAt0(t, 200000)
+      ELSE IF r.fi <= 6 THEN r.poly[1] <= 3 * AreaTol + 3 * AreaTolAt0(t, 200000) ELSE r.poly[1] <= 3 * AreaTol)
+  \* 1e-14 relative: all classes equal the closed-form ellipsoid area (Rhumb only where its series is documented)
+  /\ r.area[1] <= 100 /\ r.area[2] <= 100 /\ r.area[4] <= 100 /\ (r.fi <= 8 => r.area[3] <= 100)
 
-Obligation(r) ==
-  CASE r.e = "dir" -> DirOK(r) [] r.e = "inv" -> InvOK(r) [] r.e = "pinv" -> PinvOK(r)
-    [] r.e = "dl" -> DlOK(r) [] r.e = "il" -> IlOK(r) [] r.e = "al" -> AlOK(r)
-    [] OTHER -> FALSE
+LawOf(r) ==
+  CASE r.e = "dl" -> DlLaw(r) [] r.e = "il" -> IlLaw(r)
+    [] r.e = "dir" -> (IF DirOK(r) THEN "ok" ELSE "lattice")
+    [] r.e = "inv" -> (IF InvOK(r) THEN "ok" ELSE "lattice")
+    [] r.e = "pinv" -> (IF PinvOK(r) THEN "ok" ELSE "lattice")
+    [] r.e = "sp" -> (IF SpOK(r) THEN "ok" ELSE "lattice")
+    [] r.e = "al" -> (IF AlOK(r) THEN "ok" ELSE "laws")
+    [] OTHER -> "unknown-record"
 
 Expected(r) ==
   CASE r.e = "dir" -> Direct(r.inc, r.s1, r.a)
     [] r.e = "inv" -> Inverse(r.inc, r.s1, r.s2)
     [] r.e = "pinv" -> PoleInverse(r.pole, r.L, r.lat, r.lon, r.first)
+    [] r.e = "sp" -> SameParallel(r.lat, r.mirror, r.dl)
     [] OTHER -> <<>>
 
 Init == l = 1 /\ KitInit
 Next == /\ l <= NT
-        /\ Require(Obligation(T[l]), l, "geod-" \o T[l].e, Expected(T[l]))
+        /\ LET law == LawOf(T[l]) IN
+           Require(law = "ok", l, (IF T[l].e \in {"dir", "inv", "pinv", "sp"} THEN "geod-" \o T[l].e ELSE "geod-" \o T[l].e \o "-" \o law), Expected(T[l]))
         /\ Consumed(l)
         /\ l' = l + 1
 =============================================================================
